@@ -228,6 +228,53 @@ def run_case(rng, res, idx):
                     cfg={k: cfg[k] for k in ('method', 'pdt', 'fdt', 'idt', 'kl')}))
 
 
+def run_half_edges(rng, res, idx):
+    """float16 parameters and gradients near the edge of the format: finite gradients of magnitude up to 1e3, whose products
+    with the preconditioned gradients leave float16 inside the clip computation, with learning rates that are exactly zero
+    (constant or a warm-up callable) or not. The factors are well conditioned (identity-dominated first update, float32 factors),
+    so the preconditioned gradient itself is representable: the result must be finite, with shape and dtype preserved."""
+    import warnings
+    import torch
+    from kfac.preconditioner import KFACPreconditioner
+
+    fi, fh, fo = rng.randint(2, 6), rng.randint(2, 6), rng.randint(1, 4)
+    mag = rng.choice([1.0, 30.0, 300.0, 1000.0])
+    lrk = rng.choice(['zero', 'zero_callable', 'warmup', 'const'])
+    lr = {'zero': 0.0, 'zero_callable': (lambda st: 0.0), 'warmup': (lambda st: 0.1 * st), 'const': 0.1}[lrk]
+    kl = rng.choice([0.001, 0.001, 1e-4, None])
+    method = rng.choice(['eigen', 'inverse'])
+    case = dict(idx=idx, kind='half_edges', dims=[fi, fh, fo], grad_magnitude=mag, lr=lrk, kl_clip=kl, method=method)
+    g = torch.Generator().manual_seed(rng.randrange(2 ** 31))
+    model = torch.nn.Sequential(torch.nn.Linear(fi, fh), torch.nn.Tanh(), torch.nn.Linear(fh, fo, bias=rng.random() < 0.5))
+    with torch.no_grad():
+        for q in model.parameters():
+            q.copy_(torch.randn(q.shape, generator=g) * 0.5)
+    model = model.half()
+    with warnings.catch_warnings():
+        warnings.simplefilter('ignore')
+        p = KFACPreconditioner(model, factor_dtype=torch.float32, inv_dtype=torch.float32, kl_clip=kl, lr=lr, damping=rng.choice([0.001, 0.1]), compute_method=method)
+    x = torch.randn(rng.randint(2, 8), fi, generator=g).half()
+    model(x).float().pow(2).mean().backward()
+    with torch.no_grad():   # gradients of the requested magnitude (finite in float16)
+        top = max(float(q.grad.float().abs().max()) for q in model.parameters())
+        if not top > 0:
+            return res.skip('zero gradients')
+        for q in model.parameters():
+            q.grad.copy_((q.grad.float() * (mag / top)).half())
+    if not all(torch.isfinite(q.grad).all() for q in model.parameters()):
+        return res.skip('non-finite inputs to the step')
+    before = {n: (tuple(q.grad.shape), q.grad.dtype) for n, q in model.named_parameters()}
+    p.step()
+    res.count('half_edge_checks')
+    for n, q in model.named_parameters():
+        if (tuple(q.grad.shape), q.grad.dtype) != before[n]:
+            return res.violation(f'float16 model: step() changed shape/dtype of the gradient of {n}: {before[n]} -> {(tuple(q.grad.shape), q.grad.dtype)}', case)
+        if not torch.isfinite(q.grad).all():
+            return res.violation(f'float16 model: finite gradients (max |g| = {mag}) but the preconditioned gradient of {n} is not finite (lr {lrk}, kl_clip {kl}, {method})', case)
+    if mag >= 300:
+        res.nontrivial.add(stable_hash('half', fi, fh, fo, mag, lrk, kl, method))
+
+
 def plan(tier, seed):
     n = tier_value(tier, 2000, 150000)
     shards = tier_value(tier, 8, 14)
@@ -243,6 +290,9 @@ def run_shard(spec, res):
         from kverif import repotests
         return repotests.run('C10', spec['files'], res)
     dl = Deadline(spec['budget_s'])
+    from kverif.kharness import call_case as _cc
+    for j in range(40 if spec['tier'] == 'quick' else 1500):
+        _cc(res, run_half_edges, case_rng(spec['seed'], ID, spec['first'] + j, 'half'), res, spec['first'] + j, case=dict(idx=spec['first'] + j, kind='half_edges'))
     for i in range(spec['first'], spec['first'] + spec['count']):
         if dl.over():
             break
@@ -256,4 +306,6 @@ def replay(case, res):
     if 'repo_tests' in case:
         from kverif import repotests
         return repotests.run('C10', case['repo_tests'], res)
+    if case.get('kind') == 'half_edges':
+        return run_half_edges(case_rng(int(os.environ.get('VERIF_SEED', '0')), ID, case['idx'], 'half'), res, case['idx'])
     run_case(case_rng(int(os.environ.get('VERIF_SEED', '0')), ID, case['idx']), res, case['idx'])
